@@ -340,6 +340,31 @@ func genRaceDirected(r *Rng, id int) *Scenario {
 	return sc
 }
 
+// errcache-directed (race tier): several submitters keep re-submitting the same rejected
+// transactions (each re-submission looks the transaction up in the pool's error cache) while
+// valid ones are submitted and the pool is queried.
+func genErrCacheDirected(r *Rng, id int) *Scenario {
+	sc := &Scenario{ID: id, Stream: "errcache-directed", Seed: r.Next(), Trunk: 16, Branches: map[string]int{"A": 2}, SampleMs: 0, Expect: "completes"}
+	sc.Setup = chain("T", 1, 16)
+	sc.Txs = []TxSpec{{In: []string{"R5"}, NOut: 2, Bad: true}, {In: []string{"R9"}, NOut: 1, Bad: true}, {In: []string{"R13"}, NOut: 1}, {In: []string{"R9"}, NOut: 2, Bad: true}}
+	sub := func(n int) []Event {
+		var ev []Event
+		for i := 0; i < n; i++ {
+			ev = append(ev, Event{K: "tx", Tx: []int{0, 1, 3, 0, 1, 2}[r.Intn(6)]})
+		}
+		return ev
+	}
+	var reads []Event
+	for i := 0; i < 30; i++ {
+		reads = append(reads, read([]string{"have", "pool", "best"}[r.Intn(3)], "T16"), Event{K: "sleep", Ms: 1 + r.Intn(2)})
+	}
+	sc.Workers = []Worker{{Kind: "tx", Events: sub(60)}, {Kind: "tx", Events: sub(60)}, {Kind: "tx", Events: sub(60)}, {Kind: "read", Events: reads}}
+	if r.Bool() {
+		sc.Workers = append(sc.Workers, Worker{Kind: "block", Events: chain("A", 17, 18)})
+	}
+	return sc
+}
+
 // pool-directed (race tier): transaction submitters, a block submitter whose branch confirms some of
 // them (the chain then removes them from the pool), and a reader that keeps querying the pool and the
 // chain state.
@@ -682,6 +707,10 @@ func runC37(c *Ctx) error {
 	}
 	for i := 0; i < c.N(2, 6); i++ {
 		raceScs = append(raceScs, genPoolDirected(c.Rng, id))
+		id++
+	}
+	for i := 0; i < c.N(2, 5); i++ {
+		raceScs = append(raceScs, genErrCacheDirected(c.Rng, id))
 		id++
 	}
 	for i := 0; i < c.N(1, 4); i++ {
